@@ -261,6 +261,10 @@ struct World {
     flavor: &'static str,
     trace: Vec<String>,
     bad: bool,
+    /// first witness already reported for C05 / for C16 in this history (the two verdict
+    /// streams are judged independently: a failure of one must not silence the other)
+    bad05: bool,
+    bad16: bool,
     /// probe identity of each region's bitmap (probe flavour only)
     probe: Vec<Option<u64>>,
 }
@@ -304,6 +308,11 @@ impl World {
     }
     fn fail(&mut self, prop: &str, sig: &str, d: J) {
         self.bad = true;
+        if prop == "C05" {
+            self.bad05 = true;
+        } else {
+            self.bad16 = true;
+        }
         let tr: Vec<String> = self.trace.iter().rev().take(3).cloned().collect();
         out::viol(
             &format!("{}/{}", prop, sig),
@@ -377,7 +386,7 @@ fn judge<B: Bitmap + 'static>(w: &mut World, gm: &GuestMemoryMmap<B>, route: &st
             }
             for &x in &changed_idx {
                 let covering: Vec<&(usize, Vec<u8>)> = evs.iter().filter(|(f, b)| x >= *f && x < *f + b.len()).collect();
-                if !covering.is_empty() && !covering.iter().any(|(f, b)| b[x - *f] == ab[x]) && !w.bad {
+                if !covering.is_empty() && !covering.iter().any(|(f, b)| b[x - *f] == ab[x]) && !w.bad05 {
                     w.fail("C05", &format!("{}/{}/page-marked-before-its-bytes-were-written", route, level), jobj! {"region" => i, "offset" => x, "page" => x / w.page, "mark_events" => evs.len()});
                 }
             }
@@ -386,11 +395,11 @@ fn judge<B: Bitmap + 'static>(w: &mut World, gm: &GuestMemoryMmap<B>, route: &st
             {
                 any_changed = true;
                 cp[x / w.page] = true;
-                if w.tracked[i] && !bits[x / w.page] && !w.bad {
+                if w.tracked[i] && !bits[x / w.page] && !w.bad05 {
                     w.fail("C05", &format!("{}/{}/changed-byte-reported-clean", route, level), jobj! {"region" => i, "offset" => x, "page" => x / w.page});
                 }
                 if let Some((ai, base, f)) = &acc {
-                    if *ai == i && x >= *base && w.tracked[i] && !f(x - *base) && !w.bad {
+                    if *ai == i && x >= *base && w.tracked[i] && !f(x - *base) && !w.bad05 {
                         w.fail("C05", &format!("{}/{}/accessor-view-reports-clean", route, level), jobj! {"region" => i, "offset" => x, "accessor_base" => *base});
                     }
                 }
@@ -405,10 +414,10 @@ fn judge<B: Bitmap + 'static>(w: &mut World, gm: &GuestMemoryMmap<B>, route: &st
         for p in 0..after_bits[i].len() {
             let before = w.snap_bits[i][p];
             let after = after_bits[i][p];
-            if p >= np && after && !w.bad {
+            if p >= np && after && !w.bad16 {
                 w.fail("C16", &format!("{}/{}/page-beyond-region-marked", route, level), jobj! {"region" => i, "page_index" => p, "pages" => np});
             }
-            if before && !after && kind != Kind::Maintenance && !w.bad {
+            if before && !after && kind != Kind::Maintenance && !w.bad05 {
                 w.fail("C05", &format!("{}/{}/mark-cleared-by-access", route, level), jobj! {"region" => i, "page_index" => p});
             }
             if after && !before {
@@ -418,7 +427,7 @@ fn judge<B: Bitmap + 'static>(w: &mut World, gm: &GuestMemoryMmap<B>, route: &st
                         allowed = true;
                     }
                 }
-                if !allowed && !w.bad {
+                if !allowed && !w.bad16 {
                     let why = match kind {
                         Kind::NoWrite => "non-writing-operation-marked-page",
                         Kind::Maintenance => "maintenance-set-a-bit",
@@ -1191,7 +1200,7 @@ fn history<F: Flavor + XenMake>(case: u64, args: &Args) {
         start += len as u64 + *r.pick(&[0u64, 0, 0, 1, 4096]);
     }
     let gm = GuestMemoryMmap::from_regions(regions).unwrap();
-    let mut w = World { regs, page, tracked: vec![], snap_bytes: vec![], snap_bits: vec![], flavor: F::NAME, trace: vec![], bad: false, probe: vec![] };
+    let mut w = World { regs, page, tracked: vec![], snap_bytes: vec![], snap_bits: vec![], flavor: F::NAME, trace: vec![], bad: false, bad05: false, bad16: false, probe: vec![] };
     PROBE_REGIONS.with(|t| t.borrow_mut().clear());
     PROBE_EVENTS.with(|t| t.borrow_mut().clear());
     for (i, reg) in gm.iter().enumerate() {
@@ -1273,21 +1282,24 @@ fn huge_region() {
     let check = |want: &std::collections::BTreeSet<usize>, ctx: &str| -> bool {
         let mut pts: Vec<usize> = vec![0, 1, 0x1234, 0x1238, lim - 9, lim - 1, lim, lim + 1, lim + 7, lim + 0x1234, lim + 0x1240, len - 1];
         pts.extend(want.iter().flat_map(|p| [*p, p.wrapping_sub(1), p + 1, p % lim, p.wrapping_sub(lim)]));
+        // both verdict streams are judged independently (first witness of each)
+        let (mut clean_bad, mut extra_bad) = (false, false);
         for p in pts {
             if p >= len {
                 continue;
             }
             let w = want.contains(&p);
             if bm.dirty_at(p) != w {
-                if w {
+                if w && !clean_bad {
+                    clean_bad = true;
                     out::viol(&format!("C05/huge-region/{}/changed-byte-reported-clean", ctx), jobj! {"offset" => p});
-                } else {
+                } else if !w && !extra_bad {
+                    extra_bad = true;
                     out::viol(&format!("C16/huge-region/{}/page-not-overlapping-the-write-marked", ctx), jobj! {"offset" => p});
                 }
-                return false;
             }
         }
-        true
+        !(clean_bad || extra_bad)
     };
     let base = 0x1_0000_0000u64;
     // (name, offset, length, route)
